@@ -28,6 +28,9 @@ NUMS = [0.0, -0.0, 1.0, -1.0, 7.0, 42.0, -42.0, 255.0, 256.0, 65535.0, 1e6, 1234
         9.5, 0.95, 0.0095, 1e15, 1e16, 1e17, 1e21, 1e22, 1e23, 1e-7, 5e-324, 2.2250738585072014e-308, 1.7976931348623157e308,
         -1.7976931348623157e308, 1e100, 1e-100, 3.14159265358979, 2.718281828, 1 / 3, 2 / 3, 123.456, 0.1, 0.2, 0.3, 1e-4,
         0.0001234, 99999.95, 999999.95, 0.99999995, 12345.678, 4.9e-324, 1e300, 2.0 ** 53, 2.0 ** 63, 2.0 ** 64, 1e20]
+# integers at and around powers of two up to the largest double (every double >= 2^53 is an integer: o/x/X must spell it exactly)
+BIG_INTS = sorted({f for k in list(range(52, 72)) + [80, 100, 127, 128, 200, 512, 1000, 1023] for b in [2.0 ** k] for f in (b, math.nextafter(b, 0.0), math.nextafter(b, math.inf))
+                   if math.isfinite(f)} | {1e19, 1e20, 1.8446744073709552e19, 9.223372036854776e18, 1e100, 1.7976931348623157e308, 3.0 * 2.0 ** 62, 5.0 * 2.0 ** 61})
 TIES = [k + 0.5 for k in range(-6, 12)] + [k / 8 for k in range(-9, 20)] + [0.25, 0.75, 1.25, 0.125, 0.375, 0.625, 2.125, 1e15 + 0.5, 4503599627370496.5,
         0.05, 0.15, 0.45, 1.45, 2.675, 1.005, 1234.5, 12345.5, 0.0625, 0.03125, 99.5, 999.5, 9999.5, 9.5, -9.5, -99.5, -0.5, -0.25, -0.75]
 STRS = ["", "a", "abc", "é", "ééé", "中文", "\U0001f600x", "á", "%", "x y", "tab\t", "ß"]
@@ -41,14 +44,17 @@ def directive(draw):
     conv = draw(st.sampled_from(list("diuoxXeEfFgGcs%") + list("dxefgs")))
     flags = "".join(draw(st.lists(st.sampled_from("#0- +"), max_size=4)))
     w = draw(st.one_of(st.none(), st.none(), st.integers(0, 40), st.sampled_from([1, 2, 5, 8, 10, 100, 1001, 70000]), st.just("*")))
-    if conv in "cs%":
+    if conv in "cs":
+        p = draw(st.one_of(st.none(), st.none(), st.integers(0, 5), st.just("*")))
+    elif conv == "%":
         p = draw(st.one_of(st.none(), st.none(), st.integers(0, 5)))
     else:
         p = draw(st.one_of(st.none(), st.none(), st.integers(0, 20), st.integers(0, 3), st.sampled_from([0, 1, 2, 17, 18, 30, 100, 1001, 1100, 65535, 65536, 70000]),
                            st.just("*")))
     lm = draw(st.sampled_from(["", "", "", "h", "l", "L"]))
     if conv in INT_CONVS or conv in FLOAT_CONVS or conv in G_CONVS:
-        val = draw(st.one_of(st.sampled_from(NUMS), st.sampled_from(TIES), V.finite_doubles(), st.integers(-10 ** 6, 10 ** 6).map(float)))
+        val = draw(st.one_of(st.sampled_from(NUMS), st.sampled_from(TIES), V.finite_doubles(), st.integers(-10 ** 6, 10 ** 6).map(float),
+                             st.sampled_from(BIG_INTS), st.sampled_from(BIG_INTS).map(lambda f: -f)))
         val = {"n": V.f2h(val)}
     elif conv == "c":
         val = draw(st.one_of(st.sampled_from(["a", "é", "\U0001f600", "中"]), st.sampled_from([65.0, 233.0, 0x1f600, 0x4e2d]).map(lambda x: {"n": V.f2h(x)})))
@@ -232,6 +238,25 @@ def check_invariants(d, field, what):
                 raise Violation("g-shape", f"{what}: exponent {e10} inside [-4, {p}) but exponent form: {field[:80]!a}")
             if (conv == "G") != ("E" in body) and has_exp:
                 raise Violation("g-shape", f"{what}: wrong exponent letter case in {field[:80]!a}")
+    if conv in INT_CONVS:
+        # value: the digits denote trunc(x) - exactly for o/x/X (powers-of-two radices spell any integral double exactly), and as a
+        # decimal that reads back as the same double for d/i/u (above 2^53 the shortest round-trip digits are accepted as well)
+        x = V.h2f(d["val"]["n"])
+        t = int(x)  # truncation toward zero, exact
+        m = re.fullmatch(r"([-+ ]?)(0[xX]|0(?=[0-7]))?([0-9a-fA-F]+)", field.strip(" "))
+        if not m:
+            raise Violation("int-shape", f"{what}: field {field[:80]!a} is not a printf integer")
+        digits = m.group(3)
+        if len(digits) < 1200:
+            try:
+                got = int(digits, {"o": 8, "x": 16, "X": 16}.get(conv, 10))
+            except ValueError:
+                raise Violation("int-shape", f"{what}: field {field[:80]!a} has digits outside the radix")
+            if conv in "oxX":
+                if got != abs(t):
+                    raise Violation("int-value", f"{what}: field {field[:80]!a} denotes {got}, the argument truncates to {abs(t)}")
+            elif float(got) != float(abs(t)):
+                raise Violation("int-value", f"{what}: field {field[:80]!a} denotes {got}, the argument truncates to {abs(t)}")
     if conv in "xX":
         digits = re.sub(r"^[-+ ]*(0[xX])?", "", field.strip(" "))
         if conv == "x" and digits != digits.lower() or conv == "X" and digits != digits.upper():
